@@ -1559,3 +1559,7 @@ mod test {
         );
     }
 }
+
+#[cfg(feature = "verif")]
+#[path = "verif/worterbuch_hooks.rs"]
+pub(crate) mod verif_hooks;
